@@ -22,11 +22,11 @@
 #define VF_L CBOR_MAX_STACK_SIZE
 
 enum {
-  K_DECODED = VC_USER, K_CONSTRUCTED, K_OUTSIDE, K_NODES, K_SHARED, K_PARTIAL, K_BUFSIZES, K_BYTES_CMP, K_ROUNDTRIPS, K_NAN, K_SUFFIXES, K_CONCATS, K_ITEMS_SPLIT,
+  K_DECODED = VC_USER, K_CONSTRUCTED, K_OUTSIDE, K_NODES, K_SHARED, K_PARTIAL, K_BUFSIZES, K_BYTES_CMP, K_ROUNDTRIPS, K_NAN, K_SUFFIXES, K_CONCATS, K_ITEMS_SPLIT, K_CORPUS,
   K_ENC0 /* PROP 7: encoder counters live in chk_encode.c slots */
 };
 static unsigned bn_max, dfs_k, cdepth;
-static uint64_t bn_units, dfs_units, con_units, enc_units, cat_units;
+static uint64_t bn_units, dfs_units, con_units, enc_units, cat_units, cor_units;
 static vf_sb why, sb2;
 
 #if PROP == 7
@@ -456,12 +456,21 @@ static void unit(uint64_t u) {
   u -= dfs_units;
   if (u < con_units) { constructed_unit(u); return; }
   u -= con_units;
+  if (u < cor_units) { /* boundary corpus: counts / lengths on every head-width boundary and growth step */
+    size_t n;
+    const uint8_t* b = vf_corpus_item(u, &n, NULL);
+    va_cap = 1ull << 30;
+    vf_cnt(K_CORPUS, 1);
+    from_bytes(b, n, true);
+    return;
+  }
+  u -= cor_units;
 #if PROP == 7
   vf_encoders_unit(u);
 #endif
 #endif
 }
-static uint64_t units(void) { return bn_units + dfs_units + con_units + enc_units + cat_units; }
+static uint64_t units(void) { return bn_units + dfs_units + con_units + cor_units + enc_units + cat_units; }
 static void init(void) {
   vf_enum_init();
   vf_sets_init();
@@ -493,6 +502,8 @@ static void init(void) {
   bn_units = vf_bn_units();
   dfs_units = vf_dfs_units(&VF_SIGMA);
   con_units = 128;
+  vf_corpus_init();
+  cor_units = vf_corpus_count();
 #if PROP == 7
   vf_encoders_init();
   enc_units = vf_encoders_units();
@@ -585,7 +596,7 @@ struct vf_check vf_the_check = {
                  [K_DECODED] = "decoder_derived_trees", [K_CONSTRUCTED] = "constructed_trees", [K_OUTSIDE] = "outside_domain", [K_NODES] = "tree_nodes_walked",
                  [K_SHARED] = "trees_with_shared_subitems", [K_PARTIAL] = "trees_with_partially_filled_definite_containers", [K_BUFSIZES] = "buffer_sizes_tried",
                  [K_BYTES_CMP] = "byte_exact_comparisons", [K_ROUNDTRIPS] = "load_of_serialization", [K_NAN] = "trees_with_NaN", [K_SUFFIXES] = "xy_pairs",
-                 [K_CONCATS] = "concatenations", [K_ITEMS_SPLIT] = "items_split",
+                 [K_CONCATS] = "concatenations", [K_ITEMS_SPLIT] = "items_split", [K_CORPUS] = "boundary_corpus_items",
 #if PROP == 7
                  [VC_USER + 24] = "encoder_buffer_sizes_tried", [VC_USER + 25] = "encoder_calls_with_too_small_buffer",
 #endif
